@@ -103,7 +103,37 @@ class Builder:
         lw = tgt.lowerer_cls(d, tgt.cname, self.profile, this_type=tgt.this)
         lw.source_files = [tgt.src] + list(getattr(tgt, 'more_sources', []))
         try:
-            text = lw.lower(tgt.extra_params)
+            helpers = []
+            for _attempt in range(6):
+                try:
+                    text = lw.lower(tgt.extra_params)
+                    break
+                except Unsupported as e0:
+                    # a call of a file-static / free repository function the unit has no rule for (e.g. a helper a refactoring
+                    # extracted): lower that function from the same TU as well, place it before this one, and try again
+                    m = re.search(r'call fn:(\w+)/(\d+)$', str(e0))
+                    if not m or getattr(tgt, 'no_auto_callees', False):
+                        raise
+                    hname, hn = m.group(1), int(m.group(2))
+                    try:
+                        hd = astx.find_function(tgt.src, hname, hname, nparams=hn, extra_flags=tgt.extra_flags)
+                    except astx.ExtractError:
+                        raise e0
+                    if hd.get('kind') != 'FunctionDecl' or not _decl_in_repo(hd, tgt.src):
+                        raise e0
+                    hc = 'auto_' + hname
+                    ht = Target(tgt.rel, hname, hname, hc, nparams=hn, extra_flags=tgt.extra_flags)
+                    ht.decl = hd
+                    ht.lowerer_cls = tgt.lowerer_cls
+                    ht.more_sources = list(getattr(tgt, 'more_sources', []))
+                    ht.no_auto_callees = True
+                    helpers.append('static ' + self.lower(ht))
+                    self.profile.calls['fn:%s/%d' % (hname, hn)] = ('calleeret' if self.last.ret_class else 'callee', hc)
+                    self.auto_callees = getattr(self, 'auto_callees', []) + [{'function': hname, 'for': tgt.cname}]
+                    lw = tgt.lowerer_cls(d, tgt.cname, self.profile, this_type=tgt.this)
+                    lw.source_files = [tgt.src] + list(getattr(tgt, 'more_sources', []))
+            else:
+                raise Unsupported('too many unknown helper functions')
             # local lambdas lifted to C functions (cxx2c.lift_local_lambda): the unit places `builder.lifted` before the function bodies
             self.lifted = getattr(self, 'lifted', [])
             self.lifted.extend(getattr(lw, 'lifted', []))
@@ -130,12 +160,16 @@ class Builder:
                                'lowered_c_sha': hashlib.sha256((text + ''.join(getattr(lw, 'lifted', []))).encode()).hexdigest()[:16], 'loops': lw.loops,
                                'rules_fired': len(lw.fired), 'calls_dropped': len(lw.dropped)})
         self.last = lw
+        if helpers:
+            text = '\n'.join(helpers) + '\n/*@END-HELPERS@*/\n' + text
         return text
 
     def prototype(self, text, keep_ensures=None):
         """declaration (signature + contract) of a lowered function, for callers that use it through its contract.
         keep_ensures=N keeps only the first N ensures clauses: a WEAKER view of the very contract the function is verified
         against (dropping guarantees is sound for the caller's proof; used where the caller does not need the rest)."""
+        if '/*@END-HELPERS@*/\n' in text:
+            text = text.split('/*@END-HELPERS@*/\n', 1)[1]
         i = text.index('\n{')
         head = text[:i]
         if keep_ensures is not None:
@@ -181,6 +215,19 @@ class Builder:
         with open(path, 'w') as f:
             f.write(text)
         return path
+
+
+def _decl_in_repo(d, src):
+    """true if the declaration's location is in the TU's main file or another file under the repository (not a system header)"""
+    loc = d.get('loc', {})
+    for k in ('expansionLoc', 'spellingLoc'):
+        if k in loc:
+            loc = loc[k]
+            break
+    f = loc.get('file') or (d.get('range', {}).get('begin', {}).get('file'))
+    if f is None:
+        return True     # clang omits 'file' when it equals the previously printed one: a filtered dump starts in the main file
+    return os.path.realpath(f).startswith(os.path.realpath(REPO) + os.sep)
 
 
 def _toposort(defs):
